@@ -1,5 +1,5 @@
-#ifndef TBFSMSPECXALGORITHMTSM_HPP
-#define TBFSMSPECXALGORITHMTSM_HPP
+#ifndef TBFSMSTARPUALGORITHMTSM_HPP
+#define TBFSMSTARPUALGORITHMTSM_HPP
 
 #include "tbfglobal.hpp"
 
